@@ -12,7 +12,7 @@ SPEC = {
     "claim": {
         "category": "exploration",
         "technique": "bounded-exhaustive class-alphabet strings + a grid of long single-unit runs + rapidcheck/libFuzzer generated unit strings (mutated, truncated, long) through every conversion route and public overload, judged against a per-unit reference decoder for size/terminator/outcome kind under ASan+UBSan",
-        "text": "Every conversion entry point (12 pairs, wchar_t aliases, ST::string in/out routes, all overloads, 3 modes, both Latin-1 flags) is run on exhaustively enumerated short strings over class alphabets of each encoding and on generated garbage, mutated, truncated and long inputs held in exact-size heap blocks; each call must end in a buffer of the reference size with a terminator and fully written, or ST::unicode_error - any other exception, assertion, sanitizer report or CPU-time hang is a violation. The same rule is applied to the extended entry points (STL/string_view/char8_t/C-string overloads, operator+/+= with C strings and characters, set_validated, literal operators, ST::null, filesystem paths, caller-supplied outputs on pre-filled targets, deprecated overloads, view(), sources that alias the target) and to runs of 256 Ki..1 Mi identical units (well-formed characters of each width, Latin-1 high bytes, stray continuation/lead bytes, unpaired surrogates, values above 10FFFF) at block-multiple lengths and one off.",
+        "text": "Every conversion entry point (12 pairs, wchar_t aliases, ST::string in/out routes, all overloads, 3 modes, both Latin-1 flags) is run on exhaustively enumerated short strings over class alphabets of each encoding and on generated garbage, mutated, truncated and long inputs held in exact-size heap blocks; each call must end in a buffer of the reference size with a terminator and fully written, or ST::unicode_error - any other exception, assertion, sanitizer report or CPU-time hang is a violation. The same rule is applied to the extended entry points (STL/string_view/char8_t/C-string overloads, operator+/+= with C strings and characters, set_validated, literal operators, ST::null, filesystem paths, caller-supplied outputs on pre-filled targets, deprecated overloads, view(), sources that alias the target) and to runs of 256 Ki..1 Mi identical units (well-formed characters of each width, Latin-1 high bytes, stray continuation/lead bytes, unpaired surrogates, values above 10FFFF) at block-multiple lengths and one off. Both tiers run a second build with an unsigned plain char (-funsigned-char; a reduced number of generated cases and no enumerators in the quick tier). Every exact-size input copy starts 0..7 bytes past a 16-byte boundary (a function of the case bytes; 0 for half of the cases) and still ends where its heap block ends.",
         "level_note": "Exhaustive only for the short class-alphabet strings stated in the evidence; everything longer is sampled. Trusts ASan/UBSan and the reference decoder.",
     },
 }
